@@ -950,8 +950,8 @@ def run_check(ctx, prop):
     cov = {}
     hist = []
     edges_total = edges_replayed = 0
-    plan = [('2 qudits, full alphabet except qudit calls, <= 2 live operations', CFG_EMIT, True, 7000 if quick else 60000),
-            ('1-3 qudits, full alphabet with qudit calls, 1 live operation', CFG_EMIT_Q, True, 5000 if quick else 60000),
+    plan = [('2 qudits, full alphabet except qudit calls, <= 2 live operations', CFG_EMIT, True, 4000 if quick else 60000),
+            ('1-3 qudits, full alphabet with qudit calls, 1 live operation', CFG_EMIT_Q, True, 3000 if quick else 60000),
             ('3 qudits, core alphabet, operations of width <= 3, <= 2 live operations', CFG_Q3, False, 0)]
     if not quick:
         plan.append(('2-3 qudits, full alphabet, <= 2 live operations', CFG_FULL, False, 0))
@@ -983,7 +983,7 @@ def run_check(ctx, prop):
     n_edge_hist = len(hist)
     # 3. long seeded random histories over the whole alphabet (half of them without renumber_qudits, whose
     #    known defect ends a history early and masks rarer findings)
-    nh, nc = (150, 120) if quick else (1500, 300)
+    nh, nc = (90, 120) if quick else (1500, 300)
     no_ren = [a for a in ALL_CALLS if a != 'renumber']
     jobs = [(ctx.seed * 100003 + i, rng.randint(nc // 3, nc), ALL_CALLS if i % 2 else no_ren, 7) for i in range(nh)]
     rand = parallel(_rand_worker, jobs)
